@@ -171,6 +171,27 @@ func loadRaw(o LoadOpts) (*Prog, error) {
 			p.Pre = pre
 		}
 	}
+	// helpers that became unreferenced through inlining are dead code: remove them (rename.go)
+	if !o.noInline && len(p.Inlined) > 0 {
+		if ov, notes := DeadHelperOverlay(p.Pkgs, p.Fset, readThrough(cfg.Overlay)); len(ov) > 0 {
+			merged := map[string][]byte{}
+			for k, v := range cfg.Overlay {
+				merged[k] = v
+			}
+			for k, v := range ov {
+				merged[k] = v
+			}
+			o4 := o
+			o4.Overlay, o4.noInline, o4.noRename = merged, true, true
+			if p4, err := loadRaw(o4); err == nil {
+				p4.Inlined = append(p.Inlined, notes...)
+				p4.Pre = p.Pre
+				p = p4
+			} else {
+				p.Inlined = append(p.Inlined, "dead-helper removal dropped: "+err.Error())
+			}
+		}
+	}
 	for _, need := range []string{PkgGts, PkgSeqio, PkgCache, PkgMain} {
 		pk := p.Pkgs[need]
 		if pk == nil || pk.Types == nil || len(pk.Syntax) == 0 {
